@@ -25,7 +25,7 @@ BATCH = 96
 def line_shapes(tier):
     ids = ['', '1', '-1', '7', 'x', '99999999999', ' ']
     cmds = list('CDNdPUunHTEMXx?') + ['Z', '', ':', 'CX']
-    atoms = ['a', ':', ':a b', '1_1', 'login.svc', 'stats', 'W' * 300, '10.0.0.1']
+    atoms = ['a', ':', ':a b', '1_1', 'login.svc', 'stats', 'W' * 300, '10.0.0.1', '%s%n%d%%']
     vecs = [()]
     for n in (1, 2, 3):
         vecs += list(itertools.product(atoms, repeat=n))
@@ -109,7 +109,21 @@ def _long_job(server, item):
     res, status, err, ex = server.trace(ctx + [('L', line), ('L', b'-1 ? stats\n'), ('E',)], 0)
     ok = status == 'ok' and len(res) == len(ctx) + 3
     # the long line itself arrives in several 4096-byte reads
-    return {'name': name, 'len': len(line), 'ok': ok, 'status': status, 'err': err[-1500:]}
+    out = {'name': name, 'len': len(line), 'ok': ok, 'status': status, 'err': err[-1500:], 'chunk_diff': None, 'nsplit': 0}
+    if ok and line.endswith(b'\n') and len(line) > 600:
+        # the same line delivered in two pieces (its tail arrives with a later read): the treatment must be the same
+        whole = [tuple(common.mask_time(l) for l in r.out) for r in res[len(ctx):len(ctx) + 2]]
+        flat = [l for o in whole for l in o]
+        for cut in sorted({300, 2048, 2049, 2500, 4096, len(line) - 2}):
+            if not 0 < cut < len(line) - 1:
+                continue
+            r2, st2, err2, ex2 = server.trace(ctx + [('L', line[:cut]), ('L', line[cut:]), ('L', b'-1 ? stats\n')], 0)
+            out['nsplit'] += 1
+            f2 = [common.mask_time(l) for r in r2[len(ctx):] for l in r.out]
+            if st2 != 'ok' or f2 != flat:
+                out['chunk_diff'] = (cut, st2, f2[:6], flat[:6])
+                break
+    return out
 
 def _junk_job(server, item):
     sid, lines, pos, junk, base_outs, base_dump = item
@@ -264,7 +278,7 @@ def main(tier):
 
         # ---- over-long lines
         longs = []
-        for L in (510, 1023, 1024, 1025, 4095, 4096, 4097, 8192, 20000):
+        for L in (510, 1023, 1024, 1025, 2040, 2049, 3000, 4095, 4096, 4097, 8192, 20000):
             w = 'Q' * L
             longs += [('N', b'1 N %s\n' % w.encode()), ('u', b'1 u %s\n' % w.encode()), ('n', b'1 n %s\n' % w.encode()),
                       ('U', b'1 U %s :%s\n' % (w.encode(), w.encode())), ('P', b'1 P :+x %s %s\n' % (w.encode(), w.encode())),
@@ -276,7 +290,11 @@ def main(tier):
         for r in tp.imap(_long_job, longs, chunksize=2):
             if 'harness_error' in r:
                 raise common.HarnessError(r['harness_error'])
-            nlong += 1
+            nlong += 1 + r.get('nsplit', 0)
+            if r.get('chunk_diff'):
+                cut, st2, f2, flat = r['chunk_diff']
+                run.violation('C08.long-line-chunking', 'a %d-byte %s line delivered in two reads (cut at byte %d) is treated differently from the same line in one piece: %s %r instead of %r'
+                              % (r['len'], r['name'], cut, st2, f2, flat), {'engine': 'E1-trace', 'conf': conf, 'kind': r['name'], 'length': r['len'], 'cut': cut}, dedup='longchunk|' + r['name'])
             if not r['ok']:
                 run.violation('C08.long-line', 'over-long %s line (%d bytes): %s %s' % (r['name'], r['len'], r['status'], _site(r['err'])),
                               {'engine': 'E1-trace', 'conf': conf, 'kind': r['name'], 'length': r['len'], 'stderr': r['err']}, dedup='long|' + r['name'] + _site(r['err']))
